@@ -35,7 +35,7 @@ ASSUMPTIONS = [
     "reference stream interpreter B3 in this file (DESIGN.md Appendix B3) decides accept / reject / not-done and the resulting content",
     "TTLs are a function of (owner, type) so RRset TTLs do not change between versions",
 ]
-REQUIRED = ["mon.via_socket_loop", "mon.via_socket_loop_udp", "mon.via_socket_loop_async", "mon.valid_transfer_converges", "mon.faulted_transfer", "mon.error_leaves_zone_untouched", "mon.must_reject_classes", "mon.notdone_leaves_zone_untouched"]
+REQUIRED = ["mon.faulted_via_socket_loop", "mon.via_socket_loop", "mon.via_socket_loop_udp", "mon.via_socket_loop_async", "mon.valid_transfer_converges", "mon.faulted_transfer", "mon.error_leaves_zone_untouched", "mon.must_reject_classes", "mon.notdone_leaves_zone_untouched"]
 BUDGET = {"quick": 45.0, "thorough": 480.0}
 
 FACTORIES = [("plain", dns.zone.Zone), ("versioned", dns.versioned.Zone), ("btree", dns.btreezone.Zone)]
@@ -627,6 +627,9 @@ def _run_via_query(ctx, rng, zname, relativize, z, before, ref, key, q, kind, ms
             ctx.violation("transfer-result-differs-from-server-zone:via-socket-loop", f"{tag}: {diffc(after[0], want)}", case)
     elif after[0] != before[0]:
         ctx.violation(f"malformed-stream-accepted:via-socket-loop:{ref[1] if len(ref) > 1 else ref[0]}", tag, case)
+    else:
+        # no error and an unchanged zone: the caller is told the transfer succeeded although it was refused or never finished
+        ctx.violation(f"failed-transfer-reported-as-success:via-socket-loop:{ref[0]}", f"{tag}: reference {ref}", case)
 
 
 def run_via_query_udp(ctx, rng, zname, factory, relativize, z0, s0, msgs, tcp_recs, mode, case):
@@ -785,6 +788,11 @@ def run(spec, ctx):
                         relativize = rng.random() < 0.5
                         fcase = dict(case, fault=fk, position=pcl, zone=zname, relativize=relativize, messages=[[" ".join(map(str, r)) for r in m["records"]] for m in fmsgs][:20])
                         run_transfer(ctx, zname, factory, relativize, z0, s0, base_kind, is_udp, fmsgs, (fk, None, pcl), fcase)
+                        if not is_udp and kind != "ixfr-udp-usetcp" and (fk in ("truncate", "drop") or rng.random() < 0.05):
+                            # the same faulted stream through the real socket loop: the peer closes after the last message
+                            ctx.count("mon.faulted_via_socket_loop")
+                            run_via_query(ctx, rng, zname, factory, relativize, z0, s0, base_kind, fmsgs, False, False,
+                                          dict(fcase, via="dns.query.inbound_xfr", tsig=False, last_unsigned=False))
                     ctx.count("exhaustive.streams_with_every_single_fault")
 
 
